@@ -199,8 +199,10 @@ func genProfile(r *rand.Rand) *profile.Profile {
 	}
 	nl := 2 + r.Intn(6)
 	var locs []*profile.Location
+	// ids are distinct but neither dense nor ordered (values just above the table size included)
+	lid := r.Perm(2*nl + 1)
 	for i := 0; i < nl; i++ {
-		l := &profile.Location{ID: uint64(i + 1 + r.Intn(2)*100), Address: uint64(0x1000 + i)}
+		l := &profile.Location{ID: uint64(lid[i] + 1), Address: uint64(0x1000 + i)}
 		for j, n := 0, r.Intn(4); j < n; j++ {
 			l.Line = append(l.Line, profile.Line{Function: fns[r.Intn(len(fns))], Line: int64(j)})
 		}
